@@ -2590,8 +2590,8 @@ DLLEXPORT int tj3DecodeYUVPlanes8(tjhandle handle,
   int i, retval = 0, row, pw0, ph0, pw[MAX_COMPONENTS], ph[MAX_COMPONENTS];
   JSAMPLE *ptr;
   jpeg_component_info *compptr;
-  int (*old_read_markers) (j_decompress_ptr);
-  void (*old_reset_marker_reader) (j_decompress_ptr);
+  int (*old_read_markers) (j_decompress_ptr) = NULL;
+  void (*old_reset_marker_reader) (j_decompress_ptr) = NULL;
 
   GET_DINSTANCE(handle);
 
@@ -2607,6 +2607,11 @@ DLLEXPORT int tj3DecodeYUVPlanes8(tjhandle handle,
     THROW("Invalid argument");
   if (this->subsamp != TJSAMP_GRAY && (!srcPlanes[1] || !srcPlanes[2]))
     THROW("Invalid argument");
+
+  /* These are saved before setjmp() so that they can be restored if the JPEG
+     code signals an error while the dummy methods are installed. */
+  old_read_markers = dinfo->marker->read_markers;
+  old_reset_marker_reader = dinfo->marker->reset_marker_reader;
 
   if (setjmp(this->jerr.setjmp_buffer)) {
     /* If we get here, the JPEG code has signaled an error. */
@@ -2626,9 +2631,7 @@ DLLEXPORT int tj3DecodeYUVPlanes8(tjhandle handle,
   dinfo->Ss = dinfo->Ah = dinfo->Al = 0;
   dinfo->Se = DCTSIZE2 - 1;
   setDecodeDefaults(this, pixelFormat);
-  old_read_markers = dinfo->marker->read_markers;
   dinfo->marker->read_markers = my_read_markers;
-  old_reset_marker_reader = dinfo->marker->reset_marker_reader;
   dinfo->marker->reset_marker_reader = my_reset_marker_reader;
   jpeg_read_header(dinfo, TRUE);
   dinfo->marker->read_markers = old_read_markers;
@@ -2706,6 +2709,12 @@ DLLEXPORT int tj3DecodeYUVPlanes8(tjhandle handle,
   jpeg_abort_decompress(dinfo);
 
 bailout:
+  /* Make sure that the dummy marker reader methods never outlive this call
+     (the marker reader is a permanent object.) */
+  if (old_read_markers)
+    dinfo->marker->read_markers = old_read_markers;
+  if (old_reset_marker_reader)
+    dinfo->marker->reset_marker_reader = old_reset_marker_reader;
   if (dinfo->global_state > DSTATE_START) jpeg_abort_decompress(dinfo);
   free(row_pointer);
   for (i = 0; i < MAX_COMPONENTS; i++) {
